@@ -113,7 +113,8 @@ InvC03 == (ret = "ok" /\ FaultFree) => P!Complete(PCur, PInit0, TRUE)
 \* C14 when the copy returned ok without faults
 \* (with a separate referrer target the counters are per repository: not judged, as in the monitor)
 InvC14 == (ret = "ok" /\ FaultFree /\ ~conf.refTgt) => P!First(P!C14Checks(PCur)) = ""
-\* ... and no source GET of a blob the target had when the only faults were transient ones
+\* ... and no source GET of a blob the target had, no transfer where a mount is granted, no write onto the
+\* identical image when the only faults were transient ones
 InvC14T == (ret = "ok" /\ faults > 0 /\ faults = retries /\ ~ctxC /\ ~crashed) => P!First(P!C14TChecks(PCur)) = ""
 \* an error result leaves the requested tag alone unless the final write was made
 InvFailTag == (ret = "err" /\ ~tagMoved /\ ~conf.tgtByDigest) => TagOfT("T") = P!TagOf(PInit0, "T")
@@ -138,6 +139,9 @@ MCOptsRefsTgt == {OptRefsTgt, OptRefsTgtForce}
 MCOptsNoRefs == {OptDefault, OptForce, OptFast, OptPlats, OptDTags, OptExt}
 MCOptsForce == {OptDefault, OptForce}
 MCOptsDTags == {OptDefault, OptDTags}
+\* the option sets of a periodic re-sync (C14: repeat copy onto the identical image; the options that switch the
+\* top-level digest short-cut off, and those that do not)
+MCOptsRepeat == {OptRefs, OptDTags, OptRefsDTags, OptPlats, OptFast}
 MCFeatsDefault == {FeatAll}
 MCFeatsCore == {FeatAll, FeatNoRefApi}
 MCFeatsLeftover == {FeatAll, FeatLeftover}
